@@ -29,6 +29,7 @@ func init() { families["config"] = runConfig }
 //     1 an extra battery service        2 "ev" permission removed from the first characteristic of the main service
 //     3 a description on that characteristic   4 a unit on it     5 explicit accessory id 40+index
 //     6 main service hidden             7 max value 7 on that characteristic   8 an extra custom characteristic
+//     9 an extra readable custom characteristic WITHOUT a value (its value, set by vals i.z.n, is not structure)
 func buildSet(spec string) ([]*accessory.Accessory, error) {
 	var accs []*accessory.Accessory
 	for i, a := range strings.Split(spec, ",") {
@@ -81,6 +82,11 @@ func buildSet(spec string) ([]*accessory.Accessory, error) {
 				c := characteristic.NewString("F0000009-0000-1000-8000-0026BB765291")
 				c.Value = "custom"
 				main.AddCharacteristic(c.Characteristic)
+			case '9':
+				// a readable custom characteristic the application has not given a value yet (vals "i.z.n" gives it one)
+				c := characteristic.NewString("F000000A-0000-1000-8000-0026BB765291")
+				c.Perms = characteristic.PermsRead()
+				main.AddCharacteristic(c.Characteristic)
 			default:
 				return nil, fmt.Errorf("unknown mod %q", a)
 			}
@@ -111,6 +117,9 @@ func applyVals(accs []*accessory.Accessory, vals string) {
 			cs = append(cs, s.Characteristics...)
 		}
 		c := cs[j%len(cs)]
+		if p[1] == "z" { // the last characteristic of the accessory (the custom one of mods 8 / 9)
+			c = cs[len(cs)-1]
+		}
 		switch c.Format {
 		case characteristic.FormatBool:
 			c.UpdateValue(n%2 == 1)
